@@ -1,9 +1,9 @@
 #!/bin/bash
-# usage: round_seed_wt.sh <ID-k>...   confirm + try (in scratch worktrees) each /tmp/seed-out/<ID-k>
+# usage: round_seed_wt.sh <ID-k>...   confirm + try (in scratch worktrees) each ${SEEDOUT:-/tmp/seed-out}/<ID-k>
 cd /verif
 for n in "$@"; do
   p=${n%%-*}
-  c=$(scripts/confirm_seed.sh /tmp/seed-out/$n 2>&1 | tail -1 | cut -c1-200)
-  t=$(scripts/try_seed_wt.sh /tmp/seed-out/$n $p quick 2>&1 | tail -1 | cut -c1-300)
+  c=$(scripts/confirm_seed.sh ${SEEDOUT:-/tmp/seed-out}/$n 2>&1 | tail -1 | cut -c1-200)
+  t=$(scripts/try_seed_wt.sh ${SEEDOUT:-/tmp/seed-out}/$n $p quick 2>&1 | tail -1 | cut -c1-300)
   echo "$n | $c | $t"
 done
